@@ -114,8 +114,8 @@ class _Loader(importlib.machinery.SourceFileLoader):
         from .npshim import np as npshim
         g = module.__dict__
         g['__vp_fmt__'] = __vp_fmt__
-        g['float'] = proxy.sym_float
-        g['int'] = proxy.sym_int
+        g['float'] = proxy.SymFloatType
+        g['int'] = proxy.SymIntType
         g['round'] = proxy.sym_round
         g['isinstance'] = proxy.sym_isinstance
         g.update(extra_globals)
